@@ -87,6 +87,12 @@ pub fn cases(rng: &mut Rng, tier: &str) -> (Vec<Case>, bool) {
                     // left in, a no-break or full-width space): such a line is NOT a bare number and deletes nothing
                     let text = if rng.chance(1, 3) {
                         format!("{}{}", num, rng.pick(&["\n", "\u{a0}", " \u{3000}", "\t\x0b", "\u{2003} ", " \n"]))
+                    } else if rng.chance(1, 3) {
+                        // a blank that is not a BASIC blank IN FRONT of the number (no-break, full-width, vertical tab, line
+                        // separator ...): the text has no line number at all - a bare number behind it deletes nothing, a
+                        // statement behind it stores nothing
+                        let lead = rng.pick(&["\u{a0}", "\u{3000}", "\x0b", "\u{2028}", " \u{a0}", "\u{2003}", "\u{feff}", "\u{1680}"]);
+                        format!("{}{}{}", lead, num, rng.pick(&["", " PRINT 5", " REM x", "  "]))
                     } else {
                         format!("{} {}", num, rng.pick(&["PRINT \"oops", "PRINT 1 % 2", "X = 1.2.3", "é"]))
                     };
